@@ -45,7 +45,9 @@ func removeTwoNodeCycles(g *graph.DGraph) {
 
 	for _, e := range g.Edges {
 		a, b := e.From, e.To
-		if seen[pair{a, b}] || seen[pair{b, a}] {
+		// only an edge seen in the opposite direction closes a two-node cycle;
+		// a parallel edge (same direction) must be left alone, or an acyclic graph ends up with reversed edges
+		if seen[pair{b, a}] {
 			rev = append(rev, e)
 		} else {
 			seen[pair{a, b}] = true
